@@ -15,90 +15,86 @@
 /// logic.
 
 #[test]
-fn kani_concrete_playback_c06_sound_exp_n3_v1_c1_6098677359832023142() {
+fn kani_concrete_playback_c06_sound_exp_n3_v1_c1_12130119281816501798() {
     let concrete_vals: Vec<Vec<u8>> = vec![
-        // 127
-        vec![127],
-        // 127
-        vec![127],
-        // 127
-        vec![127],
-        // 127
-        vec![127],
-        // 127
-        vec![127],
-        // 127
-        vec![127],
-        // 127
-        vec![127],
-        // 127
-        vec![127],
-        // 0
-        vec![0],
-        // 0
-        vec![0],
-        // 0
-        vec![0],
-        // 0
-        vec![0],
-        // 0
-        vec![0],
-        // 0
-        vec![0],
-        // 0
-        vec![0],
-        // 0
-        vec![0],
+        // 3
+        vec![3],
+        // 3
+        vec![3],
+        // 3
+        vec![3],
+        // 3
+        vec![3],
+        // 3
+        vec![3],
+        // 3
+        vec![3],
+        // 3
+        vec![3],
+        // 3
+        vec![3],
+        // 255
+        vec![255],
+        // 255
+        vec![255],
+        // 255
+        vec![255],
+        // 255
+        vec![255],
+        // 255
+        vec![255],
+        // 255
+        vec![255],
+        // 255
+        vec![255],
+        // 255
+        vec![255],
         // 3ul
         vec![3, 0, 0, 0, 0, 0, 0, 0],
+        // 253
+        vec![253],
+        // 253
+        vec![253],
+        // 253
+        vec![253],
         // 252
         vec![252],
         // 252
         vec![252],
-        // 188
-        vec![188],
-        // 241
-        vec![241],
-        // 241
-        vec![241],
-        // 241
-        vec![241],
+        // 252
+        vec![252],
         // 1ul
         vec![1, 0, 0, 0, 0, 0, 0, 0],
         // 4ul
         vec![4, 0, 0, 0, 0, 0, 0, 0],
+        // 6ul
+        vec![6, 0, 0, 0, 0, 0, 0, 0],
         // 7ul
         vec![7, 0, 0, 0, 0, 0, 0, 0],
-        // 7ul
-        vec![7, 0, 0, 0, 0, 0, 0, 0],
-        // 18446744073709551615ul
-        vec![255, 255, 255, 255, 255, 255, 255, 255],
-        // 18446744073709551615ul
-        vec![255, 255, 255, 255, 255, 255, 255, 255],
         // 4ul
         vec![4, 0, 0, 0, 0, 0, 0, 0],
-        // 252
-        vec![252],
+        // 253
+        vec![253],
         // 2ul
         vec![2, 0, 0, 0, 0, 0, 0, 0],
         // 0
         vec![0],
-        // 34
-        vec![34, 0],
-        // 7
-        vec![7, 0],
+        // 65314
+        vec![34, 255],
+        // 1
+        vec![1],
         // 0
         vec![0],
-        // 34
-        vec![34, 0],
-        // 7
-        vec![7, 0],
+        // 65283
+        vec![3, 255],
         // 0
         vec![0],
-        // 32514
-        vec![2, 127],
-        // 241
-        vec![241],
+        // 0
+        vec![0],
+        // 770
+        vec![2, 3],
+        // 252
+        vec![252],
     ];
     kani::concrete_playback_run(concrete_vals, c06_sound_exp_n3_v1_c1);
 }
